@@ -56,6 +56,47 @@ def run(ctx):
     _compile_rules(ctx, model)
 
 
+def numpy_constants_not_normalised(model, mc):
+    """-> (numpy classes primitives registers as constant classes, those of
+    them that the isinstance tests of the constant handler *mc* do not cover);
+    shared with C13 (CompileMapper.map_constant writes repr(), and numpy 2
+    scalars do not repr as Python literals)"""
+    prim = model.repo.module(PRIM)
+    registered = set()
+    for st in ast.walk(prim.tree):
+        if isinstance(st, ast.AugAssign) and ast.unparse(st.target) == \
+                "VALID_CONSTANT_CLASSES" and isinstance(st.value, ast.Tuple):
+            for e in st.value.elts:
+                if isinstance(e, ast.Attribute) and ast.unparse(e.value) in (
+                        "numpy", "np"):
+                    registered.add(e.attr)
+    covered = set()
+    if mc is not None and mc.kind == "func":
+        for c in ast.walk(mc.node):
+            if isinstance(c, ast.Call) and isinstance(c.func, ast.Name) and \
+                    c.func.id == "isinstance" and len(c.args) == 2:
+                classes = c.args[1].elts if isinstance(c.args[1], ast.Tuple) \
+                    else [c.args[1]]
+                for k in classes:
+                    if isinstance(k, ast.Attribute) and ast.unparse(k.value) in (
+                            "numpy", "np"):
+                        covered |= NUMPY_SUBCLASSES.get(k.attr, {k.attr})
+    # a registered class is covered when every one of its concrete kinds is
+    need = set()
+    for r in registered:
+        kinds = NUMPY_SUBCLASSES.get(r, {r}) - {"generic", "number", "inexact",
+                                                "integer"}
+        kinds |= {"integer"} if r in ("number", "generic", "integer") else set()
+        need |= {k for k in kinds if k in ("bool_", "integer", "floating",
+                                           "complexfloating")}
+    missing = sorted(k for k in need if k not in covered
+                     and not (k == "integer" and {"signedinteger",
+                                                  "unsignedinteger"} <= covered))
+    if registered - covered <= {"number", "generic"} and not missing:
+        return registered, []
+    return registered, missing or sorted(registered - covered)
+
+
 def _memoized_hashes(ctx, model):
     """A hash depends on the process (string hashing is seeded).  A class of the
     package whose __hash__ is memoized on the instance (pytools.memoize_method
@@ -80,6 +121,20 @@ def _memoized_hashes(ctx, model):
             mm = model.lookup(c, name)
             if mm is not None and mm.kind == "func":
                 guarded = True
+                # a state made from the instance __dict__ keeps the memo out
+                # only if it removes the attribute the decorator stores in
+                # (pytools.memoize_method: _memoize_dic_<method name>;
+                # functools.cached_property: the method's own name)
+                from_dict = any(isinstance(x, ast.Attribute) and
+                                x.attr == "__dict__" for x in ast.walk(mm.node))
+                if from_dict:
+                    slot = {"memoize_method": "_memoize_dic___hash__",
+                            "cached_property": "__hash__"}.get(memo[0])
+                    removed = {x.value for x in ast.walk(mm.node)
+                               if isinstance(x, ast.Constant)
+                               and isinstance(x.value, str)}
+                    if slot is None or slot not in removed:
+                        guarded = False
         ctx.ob(f"S/pickle/memoized-hash/{c.name}", guarded, c.module.loc(h.node),
                f"{c.name} defines its own pickle state" if guarded else
                f"{c.name}.__hash__ is memoized on the instance ({memo[0]}) and "
@@ -286,28 +341,8 @@ def _digest(ctx, model):
     # 2b. numpy scalars are normalised to Python scalars before repr(): the
     # isinstance test must cover every numpy class that primitives registers as
     # a constant class (equal constants np.True_ / True must give one digest)
-    prim = model.repo.module(PRIM)
-    registered = set()
-    for st in ast.walk(prim.tree):
-        if isinstance(st, ast.AugAssign) and ast.unparse(st.target) == \
-                "VALID_CONSTANT_CLASSES" and isinstance(st.value, ast.Tuple):
-            for e in st.value.elts:
-                if isinstance(e, ast.Attribute) and ast.unparse(e.value) in (
-                        "numpy", "np"):
-                    registered.add(e.attr)
     mc = ph.members.get("map_constant")
-    covered = set()
-    if mc is not None and mc.kind == "func":
-        for c in ast.walk(mc.node):
-            if isinstance(c, ast.Call) and isinstance(c.func, ast.Name) and \
-                    c.func.id == "isinstance" and len(c.args) == 2:
-                classes = c.args[1].elts if isinstance(c.args[1], ast.Tuple) \
-                    else [c.args[1]]
-                for k in classes:
-                    if isinstance(k, ast.Attribute) and ast.unparse(k.value) in (
-                            "numpy", "np"):
-                        covered |= NUMPY_SUBCLASSES.get(k.attr, {k.attr})
-    missing = sorted(registered - covered)
+    registered, missing = numpy_constants_not_normalised(model, mc)
     if registered:
         ctx.ob("T/digest/map_constant/numpy-normalised", not missing,
                ph.loc(), f"numpy constants {sorted(registered)} are converted to "
